@@ -48,6 +48,7 @@ int ops_sorter(char **args, int na)
 		mtbl_sorter_options_set_max_memory(so, kvnum(kvs, n, "mem", 1 << 30));
 		const char *mg = kv(kvs, n, "merge");
 		if (mg && !strcmp(mg, "union")) mtbl_sorter_options_set_merge_func(so, vf_merge_union, &a->st);
+		else if (mg && !strcmp(mg, "lcp")) { a->st.mode = 2; mtbl_sorter_options_set_merge_func(so, vf_merge_union, &a->st); }
 		else if (mg && !strncmp(mg, "fail:", 5)) { a->st.mode = 1; if (unhex(mg + 5, &a->st.failkey, &a->st.lfk)) return -1; mtbl_sorter_options_set_merge_func(so, vf_merge_union, &a->st); }
 		snprintf(a->tmpdir, sizeof a->tmpdir, "%s/sort%d", vf_tmpdir, o->id);
 		mkdir(a->tmpdir, 0700);
